@@ -11,7 +11,11 @@ FLOATS = [("float", 64), ("float32", 32), ("float64", 64), ("float128", 128)]
 
 def literal(rng):
     """(type text, literal text, expected keyword, expected value, unit, precision, unsigned)"""
-    kind = rng.choice(["bool", "int", "float", "str", "none", "array", "block"])
+    kind = rng.choice(["bool", "int", "float", "str", "none", "array", "block", "blockstr"])
+    if kind == "blockstr":
+        # the text between the triple quotes is the value, line for line (also lines that look like comments or are blank)
+        body = rng.choice(["#!/bin/bash\n  # set up\nrun --fast\n\n# done", "line one\n# heading\nline three", "x = 1  # not a comment here\n\n  indented", "plain"])
+        return ("str", '"""\n' + body + '\n"""', "str", body, None, None, None)
     if kind == "bool":
         v = rng.choice([True, False])
         return ("bool", "true" if v else "false", "bool", v, None, None, None)
@@ -132,7 +136,17 @@ def run(tier="quick", seed=0, contracts=None):
     # indentation width and comments do not matter
     for _ in range(40 if tier == "quick" else 400):
         text, expected = gen_program(rng)
-        alt = "\n".join((" " * (2 * (len(l) - len(l.lstrip(" ")))) + l.lstrip(" ")) if l.strip() and not l.lstrip().startswith("#") else l for l in text.split("\n")).replace("\n", "\n\n# c\n", 1)
+        # lines between triple quotes belong to a value and stay as they are; the extra blank / comment lines go in front
+        out, inside = [], False
+        for l in text.split("\n"):
+            quotes = l.count('"""')
+            if inside or not l.strip() or l.lstrip().startswith("#"):
+                out.append(l)
+            else:
+                out.append(" " * (2 * (len(l) - len(l.lstrip(" ")))) + l.lstrip(" "))
+            if quotes % 2 == 1:
+                inside = not inside
+        alt = "\n# c\n" + "\n".join(out)
         evals += 1
         distinct.add(alt)
         try:
